@@ -36,3 +36,25 @@ Definition oz_get (o : option Z) : Z := match o with Some p => p | None => 0%Z e
 (* s[-1] and s[1:-1] *)
 Definition py_char_last (s : text) : N := match rev s with c :: _ => c | [] => 0 end.
 Definition py_strip1 (s : text) : text := removelast (tl s).
+
+(* _ASCII_RE.split(s) with the one capturing group ([\x00-\x7f]+): non-ASCII stretch, ASCII run, non-ASCII
+   stretch, ... - always an odd number of pieces, the even positions (0, 2, ...) possibly empty *)
+Fixpoint bits_from (rs : list (bool * text)) : list text :=
+  match rs with
+  | [] => [[]]
+  | (false, x) :: rest =>
+    match rest with
+    | [] => [x]
+    | (_, r) :: rest' => x :: r :: bits_from rest'
+    end
+  | (true, r) :: rest => [] :: r :: bits_from rest
+  end.
+Definition ascii_bits (s : text) : list text := bits_from (ascii_runs s).
+
+(* (bits[1], bits[2]), (bits[3], bits[4]), ... *)
+Fixpoint py_pairs (l : list text) : list (text * text) :=
+  match l with
+  | a :: b :: r => (a, b) :: py_pairs r
+  | _ => []
+  end.
+Definition py_pairs1 (l : list text) : list (text * text) := py_pairs (tl l).
